@@ -260,6 +260,13 @@ def check_c09(pid, tier, seed, rep):
     N = stage_n.stage(seed, tier)
     ndir = 0
     for r in N["records"]:
+        if r["meta"].get("expect_accept"):
+            ndir += 1
+            if r["gen_rc"] != 0:
+                nviol += 1
+                rep.violation("directed-%s" % r["name"], dict(package_dir=os.path.join(N["srcdir"], r["dir"]), kind=r["meta"]["kind"], exit=r["gen_rc"], stderr=r["gen_err"], how="cd <package_dir> && kessoku k.go"),
+                              "%s (%s): a valid declaration was refused (exit %s): %s" % (r["name"], r["meta"]["kind"], r["gen_rc"], r["gen_err"].strip().splitlines()[-1][-200:] if r["gen_err"].strip() else ""))
+            continue
         want = r["meta"].get("expect_refused")
         if not want:
             continue
@@ -334,6 +341,15 @@ def check_c10(pid, tier, seed, rep):
                 rep.violation("name-%s-%s" % (r["name"], band.replace("/", "_")), dict(package_dir=os.path.join(N["srcdir"], r["dir"]), file=band, declared=names, generated=got,
                                                                                    how="cd <package_dir> && kessoku <both files in one invocation>"),
                               "%s %s: generated functions %s, declared injectors %s" % (r["name"], band, got, names))
+    # declarations that supply nothing for a type they claim to bind must not become injectors that take it as a parameter
+    for r in N["records"]:
+        for fn in r["meta"].get("expect_not_generated") or []:
+            txt = "".join((r.get("band") or {}).values())
+            m = re.search(r"^func %s\((.*?)\)" % re.escape(fn), txt, re.M | re.S)
+            if m:
+                nviol += 1
+                rep.violation("bindnothing-%s-%s" % (r["name"], fn), dict(package_dir=os.path.join(N["srcdir"], r["dir"]), function=fn, generated=txt[:2000]),
+                              "%s %s: generated as func %s(%s) although its Bind supplies nothing: the provider is never called and the interface became a parameter" % (r["name"], fn, fn, m.group(1)))
     # directed packages with a prescribed parameter list (Sets of other packages: known finding KF-C10-1)
     open_ids = {k["id"] for k in vlib.known_findings() if k["status"] == "open" and k["property"] == pid}
     for r in N["records"]:
